@@ -247,4 +247,41 @@ Section Library.
     - intros r [t [body [-> Hb]]]. apply lib_compile_ok in Hb. destruct Hb as [text [Hc _]]. eauto.
     - intros r [t [text [-> Hc]]]. exists t, (body_of text). split; [reflexivity|]. apply lib_compile_ok. eauto.
   Qed.
+
+  (* a text that compile_text does not accept never yields code *)
+  Lemma lib_compile_refused t : (forall o, compile_text printable t <> CText o) ->
+    (exists l c m, lib_compile t = CErr l c m) \/ lib_compile t = CCrash.
+  Proof.
+    intros H. unfold lib_compile. destruct (compile_text printable t) as [text| | |] eqn:E.
+    - exfalso. exact (H text eq_refl).
+    - destruct (failure t); cbn; eauto.
+    - right. reflexivity.
+    - destruct (failure t); cbn; eauto.
+  Qed.
+
+  (* C19 "exits non-zero when a file does not compile", for the real compiler: the sources before
+     the first one that is unreadable or refused by compile_text contribute their compile_text
+     texts, nothing else is written, the exit status is 1; a CompilerError is reported as
+     "<file>:<line>:<column>:<message>" *)
+  Theorem cli_first_failure_lib : forall outfile srcs fs stdin pre it post outs,
+    all_exist fs srcs ->
+    combine srcs (contents (fs_seen fs outfile) stdin srcs) = pre ++ it :: post ->
+    Forall2 (fun it o => exists t, snd it = RText t /\ compile_text printable t = CText o) pre outs ->
+    (snd it = RBad \/ exists t, snd it = RText t /\ forall o, compile_text printable t <> CText o) ->
+    exists e, yldpc_lib no_flags outfile srcs fs stdin = placed outfile (concat outs) e /\ status e = 1%N
+      /\ (e = ECrash \/ exists l c m, e = EError (err_msg (fst it) l c m)).
+  Proof.
+    intros outfile srcs fs stdin pre it post outs Hex Hc HF Hbad.
+    assert (HF' : Forall2 (fun it o => exists t, snd it = RText t /\ lib_text lib_compile t = Some o) pre outs).
+    { eapply Forall2_imp; [|exact HF]. intros i o [t [H1 H2]]. exists t. split; [exact H1|]. apply lib_text_compile_text. exact H2. }
+    assert (He : exists e, fails lib_compile it e /\ (e = ECrash \/ exists l c m, e = EError (err_msg (fst it) l c m))).
+    { unfold fails. destruct Hbad as [Hb|[t [Ht Hn]]].
+      - rewrite Hb. exists ECrash. split; [reflexivity|left; reflexivity].
+      - rewrite Ht. destruct (lib_compile_refused t Hn) as [[l [c [m E]]]|E]; rewrite E.
+        + exists (EError (err_msg (fst it) l c m)). split; [reflexivity|right; eauto].
+        + exists ECrash. split; [reflexivity|left; reflexivity]. }
+    destruct He as [e [Hf Hshape]]. exists e.
+    destruct (cli_first_failure lib_compile trace outfile srcs fs stdin pre it post outs e Hex Hc HF' Hf) as [H1 H2].
+    split; [exact H1|]. split; [exact H2|exact Hshape].
+  Qed.
 End Library.
